@@ -63,21 +63,36 @@ func NewRequestContext(ctx context.Context, req *envoy_auth.CheckRequest) *Reque
 	}
 
 	return &RequestContext{
-		ctx:        ctx,
-		ips:        clientIPs,
-		reqMethod:  req.GetAttributes().GetRequest().GetHttp().GetMethod(),
-		reqHeaders: canonicalizeHeaders(req.GetAttributes().GetRequest().GetHttp().GetHeaders()),
-		reqURL: &url.URL{
-			Scheme:   req.GetAttributes().GetRequest().GetHttp().GetScheme(),
-			Host:     req.GetAttributes().GetRequest().GetHttp().GetHost(),
-			Path:     req.GetAttributes().GetRequest().GetHttp().GetPath(),
-			RawQuery: req.GetAttributes().GetRequest().GetHttp().GetQuery(),
-			Fragment: req.GetAttributes().GetRequest().GetHttp().GetFragment(),
-		},
+		ctx:             ctx,
+		ips:             clientIPs,
+		reqMethod:       req.GetAttributes().GetRequest().GetHttp().GetMethod(),
+		reqHeaders:      canonicalizeHeaders(req.GetAttributes().GetRequest().GetHttp().GetHeaders()),
+		reqURL:          extractURL(req.GetAttributes().GetRequest().GetHttp()),
 		reqBody:         req.GetAttributes().GetRequest().GetHttp().GetBody(),
 		reqRawBody:      req.GetAttributes().GetRequest().GetHttp().GetRawBody(),
 		upstreamHeaders: make(http.Header),
 		upstreamCookies: make(map[string]string),
+	}
+}
+
+// extractURL builds the URL of the request, as the HTTP based services do: envoy delivers the request
+// target as it appears in the first line of the HTTP request. It includes the path and the query string
+// and is not decoded. The query attribute is not set by envoy and is honored only for compatibility reasons.
+func extractURL(req *envoy_auth.AttributeContext_HttpRequest) *url.URL {
+	rawPath, query, _ := strings.Cut(req.GetPath(), "?")
+	if val := req.GetQuery(); len(val) != 0 {
+		query = val
+	}
+
+	path, _ := url.PathUnescape(rawPath)
+
+	return &url.URL{
+		Scheme:   req.GetScheme(),
+		Host:     req.GetHost(),
+		Path:     path,
+		RawPath:  rawPath,
+		RawQuery: query,
+		Fragment: req.GetFragment(),
 	}
 }
 
